@@ -267,6 +267,67 @@ EXTRA = [
     ("opassign_promoting_kind:bigint_float:in_function", 'print "@@RUN@@"\ngo = fn() {\n  av = B1\n  av /= 2.0\n  print av\n}\ngo()\n'),
     ("opassign_promoting_kind:list_element_int_bigint", 'print "@@RUN@@"\nlv: [int...] = [1]\nlv[0] += B2\nprint lv\n'),
     ("opassign_promoting_kind:field_int_float", 'print "@@RUN@@"\nclass Fq {\n  n: int\n  constructor(self) {\n    self.n = 1\n  }\n}\nfq = Fq()\nfq.n += 1.5\nprint fq.n\n'),
+    # round 9: open-list methods on fixed-shape lists that are NOT homogeneous (mismatch across an aligned pair, odd last
+    # element); a byte variable as a list index; zero-parameter function types that differ in the return type only
+    ("open_list_method_on_mixed_fixed_list:int_int_str:map", 'print "@@RUN@@"\nconst row = [10, 20, "thirty"]\nzq = row.map(fn(e: int) -> int {\n  return e - 1\n})\nprint "kept"\n'),
+    ("open_list_method_on_mixed_fixed_list:int_int_str:remove", 'print "@@RUN@@"\nconst row = [10, 20, "thirty"]\nzq = row.remove(2)\nprint "kept"\n'),
+    ("open_list_method_on_mixed_fixed_list:int_int_str:push", 'print "@@RUN@@"\nconst row = [10, 20, "thirty"]\nzq = row.push(4)\nprint "kept"\n'),
+    ("open_list_method_on_mixed_fixed_list:int_int_str:index_of", 'print "@@RUN@@"\nconst row = [10, 20, "thirty"]\nzq = row.index_of(20)\nprint "kept"\n'),
+    ("open_list_method_on_mixed_fixed_list:int_int_str:filter", 'print "@@RUN@@"\nconst row = [10, 20, "thirty"]\nzq = row.filter(fn(e: int) -> bool {\n  return e > 1\n})\nprint "kept"\n'),
+    ("open_list_method_on_mixed_fixed_list:int_int_str:reverse", 'print "@@RUN@@"\nconst row = [10, 20, "thirty"]\nzq = row.reverse()\nprint "kept"\n'),
+    ("open_list_method_on_mixed_fixed_list:str_int_int:map", 'print "@@RUN@@"\nconst row = ["a", 2, 3]\nzq = row.map(fn(e: int) -> int {\n  return e - 1\n})\nprint "kept"\n'),
+    ("open_list_method_on_mixed_fixed_list:str_int_int:remove", 'print "@@RUN@@"\nconst row = ["a", 2, 3]\nzq = row.remove(2)\nprint "kept"\n'),
+    ("open_list_method_on_mixed_fixed_list:str_int_int:push", 'print "@@RUN@@"\nconst row = ["a", 2, 3]\nzq = row.push(4)\nprint "kept"\n'),
+    ("open_list_method_on_mixed_fixed_list:str_int_int:index_of", 'print "@@RUN@@"\nconst row = ["a", 2, 3]\nzq = row.index_of(20)\nprint "kept"\n'),
+    ("open_list_method_on_mixed_fixed_list:str_int_int:filter", 'print "@@RUN@@"\nconst row = ["a", 2, 3]\nzq = row.filter(fn(e: int) -> bool {\n  return e > 1\n})\nprint "kept"\n'),
+    ("open_list_method_on_mixed_fixed_list:str_int_int:reverse", 'print "@@RUN@@"\nconst row = ["a", 2, 3]\nzq = row.reverse()\nprint "kept"\n'),
+    ("open_list_method_on_mixed_fixed_list:int_int_str_str:map", 'print "@@RUN@@"\nconst row = [1, 2, "x", "y"]\nzq = row.map(fn(e: int) -> int {\n  return e - 1\n})\nprint "kept"\n'),
+    ("open_list_method_on_mixed_fixed_list:int_int_str_str:remove", 'print "@@RUN@@"\nconst row = [1, 2, "x", "y"]\nzq = row.remove(2)\nprint "kept"\n'),
+    ("open_list_method_on_mixed_fixed_list:int_int_str_str:push", 'print "@@RUN@@"\nconst row = [1, 2, "x", "y"]\nzq = row.push(4)\nprint "kept"\n'),
+    ("open_list_method_on_mixed_fixed_list:int_int_str_str:index_of", 'print "@@RUN@@"\nconst row = [1, 2, "x", "y"]\nzq = row.index_of(20)\nprint "kept"\n'),
+    ("open_list_method_on_mixed_fixed_list:int_int_str_str:filter", 'print "@@RUN@@"\nconst row = [1, 2, "x", "y"]\nzq = row.filter(fn(e: int) -> bool {\n  return e > 1\n})\nprint "kept"\n'),
+    ("open_list_method_on_mixed_fixed_list:int_int_str_str:reverse", 'print "@@RUN@@"\nconst row = [1, 2, "x", "y"]\nzq = row.reverse()\nprint "kept"\n'),
+    ("open_list_method_on_mixed_fixed_list:int_int_int_int_str:map", 'print "@@RUN@@"\nconst row = [1, 2, 3, 4, "z"]\nzq = row.map(fn(e: int) -> int {\n  return e - 1\n})\nprint "kept"\n'),
+    ("open_list_method_on_mixed_fixed_list:int_int_int_int_str:remove", 'print "@@RUN@@"\nconst row = [1, 2, 3, 4, "z"]\nzq = row.remove(2)\nprint "kept"\n'),
+    ("open_list_method_on_mixed_fixed_list:int_int_int_int_str:push", 'print "@@RUN@@"\nconst row = [1, 2, 3, 4, "z"]\nzq = row.push(4)\nprint "kept"\n'),
+    ("open_list_method_on_mixed_fixed_list:int_int_int_int_str:index_of", 'print "@@RUN@@"\nconst row = [1, 2, 3, 4, "z"]\nzq = row.index_of(20)\nprint "kept"\n'),
+    ("open_list_method_on_mixed_fixed_list:int_int_int_int_str:filter", 'print "@@RUN@@"\nconst row = [1, 2, 3, 4, "z"]\nzq = row.filter(fn(e: int) -> bool {\n  return e > 1\n})\nprint "kept"\n'),
+    ("open_list_method_on_mixed_fixed_list:int_int_int_int_str:reverse", 'print "@@RUN@@"\nconst row = [1, 2, 3, 4, "z"]\nzq = row.reverse()\nprint "kept"\n'),
+    ("open_list_method_on_mixed_fixed_list:int_str:map", 'print "@@RUN@@"\nconst row = [1, "b"]\nzq = row.map(fn(e: int) -> int {\n  return e - 1\n})\nprint "kept"\n'),
+    ("open_list_method_on_mixed_fixed_list:int_str:remove", 'print "@@RUN@@"\nconst row = [1, "b"]\nzq = row.remove(1)\nprint "kept"\n'),
+    ("open_list_method_on_mixed_fixed_list:int_str:push", 'print "@@RUN@@"\nconst row = [1, "b"]\nzq = row.push(4)\nprint "kept"\n'),
+    ("open_list_method_on_mixed_fixed_list:int_str:index_of", 'print "@@RUN@@"\nconst row = [1, "b"]\nzq = row.index_of(20)\nprint "kept"\n'),
+    ("open_list_method_on_mixed_fixed_list:int_str:filter", 'print "@@RUN@@"\nconst row = [1, "b"]\nzq = row.filter(fn(e: int) -> bool {\n  return e > 1\n})\nprint "kept"\n'),
+    ("open_list_method_on_mixed_fixed_list:int_str:reverse", 'print "@@RUN@@"\nconst row = [1, "b"]\nzq = row.reverse()\nprint "kept"\n'),
+    ("open_list_method_on_mixed_fixed_list:int_int_float:map", 'print "@@RUN@@"\nconst row = [1, 2, 2.5]\nzq = row.map(fn(e: int) -> int {\n  return e - 1\n})\nprint "kept"\n'),
+    ("open_list_method_on_mixed_fixed_list:int_int_float:remove", 'print "@@RUN@@"\nconst row = [1, 2, 2.5]\nzq = row.remove(2)\nprint "kept"\n'),
+    ("open_list_method_on_mixed_fixed_list:int_int_float:push", 'print "@@RUN@@"\nconst row = [1, 2, 2.5]\nzq = row.push(4)\nprint "kept"\n'),
+    ("open_list_method_on_mixed_fixed_list:int_int_float:index_of", 'print "@@RUN@@"\nconst row = [1, 2, 2.5]\nzq = row.index_of(20)\nprint "kept"\n'),
+    ("open_list_method_on_mixed_fixed_list:int_int_float:filter", 'print "@@RUN@@"\nconst row = [1, 2, 2.5]\nzq = row.filter(fn(e: int) -> bool {\n  return e > 1\n})\nprint "kept"\n'),
+    ("open_list_method_on_mixed_fixed_list:int_int_float:reverse", 'print "@@RUN@@"\nconst row = [1, 2, 2.5]\nzq = row.reverse()\nprint "kept"\n'),
+    ("open_list_method_on_mixed_fixed_list:int_int_bool_bool:map", 'print "@@RUN@@"\nconst row = [1, 2, true, false]\nzq = row.map(fn(e: int) -> int {\n  return e - 1\n})\nprint "kept"\n'),
+    ("open_list_method_on_mixed_fixed_list:int_int_bool_bool:remove", 'print "@@RUN@@"\nconst row = [1, 2, true, false]\nzq = row.remove(2)\nprint "kept"\n'),
+    ("open_list_method_on_mixed_fixed_list:int_int_bool_bool:push", 'print "@@RUN@@"\nconst row = [1, 2, true, false]\nzq = row.push(4)\nprint "kept"\n'),
+    ("open_list_method_on_mixed_fixed_list:int_int_bool_bool:index_of", 'print "@@RUN@@"\nconst row = [1, 2, true, false]\nzq = row.index_of(20)\nprint "kept"\n'),
+    ("open_list_method_on_mixed_fixed_list:int_int_bool_bool:filter", 'print "@@RUN@@"\nconst row = [1, 2, true, false]\nzq = row.filter(fn(e: int) -> bool {\n  return e > 1\n})\nprint "kept"\n'),
+    ("open_list_method_on_mixed_fixed_list:int_int_bool_bool:reverse", 'print "@@RUN@@"\nconst row = [1, 2, true, false]\nzq = row.reverse()\nprint "kept"\n'),
+    ("non_index_variable:byte:read", 'print "@@RUN@@"\nxs: [int...] = [1, 2, 3]\nat = 0b1\nprint xs[at]\n'),
+    ("non_index_variable:byte:assign", 'print "@@RUN@@"\nxs: [int...] = [1, 2, 3]\nat = 0b1\nxs[at] = 5\n'),
+    ("non_index_variable:byte:opassign", 'print "@@RUN@@"\nxs: [int...] = [1, 2, 3]\nat = 0b1\nxs[at] += 5\n'),
+    ("non_index_variable:byte_param:read", 'print "@@RUN@@"\nxs: [int...] = [1, 2, 3]\npick = fn(at: byte) {\n  print xs[at]\n}\npick(0b1)\n'),
+    ("non_index_variable:byte_param:assign", 'print "@@RUN@@"\nxs: [int...] = [1, 2, 3]\npick = fn(at: byte) {\n  xs[at] = 5\n}\npick(0b1)\n'),
+    ("non_index_variable:byte_param:opassign", 'print "@@RUN@@"\nxs: [int...] = [1, 2, 3]\npick = fn(at: byte) {\n  xs[at] += 5\n}\npick(0b1)\n'),
+    ("non_index_variable:byte_typed:read", 'print "@@RUN@@"\nxs: [int...] = [1, 2, 3]\nat: byte = 0b1\nprint xs[at]\n'),
+    ("non_index_variable:byte_typed:assign", 'print "@@RUN@@"\nxs: [int...] = [1, 2, 3]\nat: byte = 0b1\nxs[at] = 5\n'),
+    ("non_index_variable:byte_typed:opassign", 'print "@@RUN@@"\nxs: [int...] = [1, 2, 3]\nat: byte = 0b1\nxs[at] += 5\n'),
+    ("zero_parameter_function_other_return_type:argument", 'print "@@RUN@@"\nmkn = fn() -> int {\n  return 42\n}\nmks = fn() -> str {\n  return "s"\n}\nuse = fn(p: fn() -> str) -> str {\n  return p() + "!"\n}\nprint use(mkn)\n'),
+    ("zero_parameter_function_other_return_type:annotated_initialiser", 'print "@@RUN@@"\nmkn = fn() -> int {\n  return 42\n}\nmks = fn() -> str {\n  return "s"\n}\nh: fn() -> str = mkn\nprint h()\n'),
+    ("zero_parameter_function_other_return_type:reassignment", 'print "@@RUN@@"\nmkn = fn() -> int {\n  return 42\n}\nmks = fn() -> str {\n  return "s"\n}\nh = mks\nh = mkn\nprint h()\n'),
+    ("zero_parameter_function_other_return_type:return", 'print "@@RUN@@"\nmkn = fn() -> int {\n  return 42\n}\nmks = fn() -> str {\n  return "s"\n}\npick = fn() -> fn() -> str {\n  return mkn\n}\nprint (pick())()\n'),
+    ("zero_parameter_function_other_return_type:list_element", 'print "@@RUN@@"\nmkn = fn() -> int {\n  return 42\n}\nmks = fn() -> str {\n  return "s"\n}\nhs: [fn() -> str...] = [mks, mkn]\nprint hs.len()\n'),
+    ("zero_parameter_function_other_return_type:field", 'print "@@RUN@@"\nmkn = fn() -> int {\n  return 42\n}\nmks = fn() -> str {\n  return "s"\n}\nclass Hq {\n  f: fn() -> str\n  constructor(self) {\n    self.f = mkn\n  }\n}\nhq = Hq()\nprint "kept"\n'),
+    ("zero_parameter_function_other_return_type:literal_argument", 'print "@@RUN@@"\nmkn = fn() -> int {\n  return 42\n}\nmks = fn() -> str {\n  return "s"\n}\nuse = fn(p: fn() -> str) -> str {\n  return p()\n}\nprint use(fn() -> int {\n  return 1\n})\n'),
+    ("zero_parameter_function_other_return_type:void_vs_value", 'print "@@RUN@@"\nmkn = fn() -> int {\n  return 42\n}\nmks = fn() -> str {\n  return "s"\n}\nuse = fn(p: fn() -> str) -> str {\n  return p()\n}\nvq = fn() {\n}\nprint use(vq)\n'),
     ("call_result_of_call_arg_type", 'print "@@RUN@@"\nf = fn(a: str) -> int {\n  return 1\n}\ng = fn(b: int) -> int {\n  return b\n}\nprint f(g(1))\n'),
 ]
 
